@@ -171,11 +171,25 @@ def add_item(p: Prog, item: int, ev: int, ctr: list, depth=0, nested=-1):
         p._open("do", "#DO", f"do {lab} i{k} = 1, 3")
         inner()
         p._close("continue", label=lab)
+    elif item == 15:  # SELECT TYPE whose CLASS DEFAULT guard is not the last one
+        p._open("select", "#SELECT", f"select type (z{k} => x{k})")
+        p.stmt("class default")
+        p.stmt(f"y{k} = 0")
+        p.stmt("type is (integer)")
+        inner()
+        p.stmt("type is (real)")
+        p.end(ev)
+    elif item == 16:  # assignments to variables whose names start like keywords
+        p.stmt(f"blocks({k}) = 2")
+        p.stmt(f"interfaces({k}) = 2")
+        p.stmt(f"block_size{k} = blocks({k})")
+        p.stmt(f"endv{k} = f{k}(1)")
+        p.stmt(f"end_time({k}) = 0")
     else:
         raise ValueError(item)
 
 
-EXEC_ITEMS = [1, 2, 3, 4, 5, 6, 7, 8, 9, 10, 11, 12, 13, 14]
+EXEC_ITEMS = [1, 2, 3, 4, 5, 6, 7, 8, 9, 10, 11, 12, 13, 14, 15, 16]
 N_EXEC = len(EXEC_ITEMS)
 
 
